@@ -262,7 +262,9 @@ type Project struct {
 	Layout int
 }
 
-func Selected(f javagen.File) bool { return f.PathKind == "main" || f.PathKind == "maven" }
+func Selected(f javagen.File) bool {
+	return f.PathKind == "main" || f.PathKind == "maven" || f.PathKind == "neartest"
+}
 
 // Gen builds one random project. wantBodies: give (almost) every method a body with call sites.
 func Gen(r *rand.Rand, wantBodies bool) Project {
@@ -291,6 +293,8 @@ func Gen(r *rand.Rand, wantBodies bool) Project {
 			k = "teststname"
 		case 7, 8, 9:
 			k = "maven"
+		case 10:
+			k = "neartest"
 		}
 		if i == 0 && k != "maven" {
 			k = "main"
@@ -317,7 +321,7 @@ func Gen(r *rand.Rand, wantBodies bool) Project {
 			f.Dirs = []string{"", "service", "mod/core"}[r.Intn(3)]
 		}
 		c.Files = append(c.Files, f)
-		if k == "main" || k == "maven" {
+		if k == "main" || k == "maven" || k == "neartest" {
 			g.classes = append(g.classes, javagen.Import{Pkg: f.Pkg, Name: f.Unit.Name})
 		}
 	}
